@@ -362,7 +362,8 @@ pub struct Item {
     pub range: bool,
 }
 
-const BUNDLES: [(&str, u8, &str, &str); 3] = [("Lu", 0, "L", ""), ("Mn", 9, "NSM", "<wide> 0041"), ("Nd", 0, "AN", "<narrow> 0042")];
+// the wide target is in the BMP, the narrow one in a supplementary plane (value width of the emitted table)
+const BUNDLES: [(&str, u8, &str, &str); 3] = [("Lu", 0, "L", ""), ("Mn", 9, "NSM", "<wide> 0041"), ("Nd", 0, "AN", "<narrow> 1B000")];
 
 fn tilings(n: u32, nb: u8, pos: u32, cur: &mut Vec<Item>, out: &mut Vec<Vec<Item>>) {
     if pos == n {
@@ -736,7 +737,9 @@ pub fn run(_env: &Env, run: &Run) -> (Stats, Coverage) {
     let nb = run.tier.pick(2u8, 3u8);
     let mut confs = Vec::new();
     tilings(n, nb, 0, &mut Vec::new(), &mut confs);
-    let bases: Vec<u32> = vec![0, 0x1F000, 0x10FFFD - (n - 1)];
+    // window positions: start of the code space, mid-plane, ending at the last assignable code
+    // point U+10FFFD, and ending at U+10FFFE (one before the end of the code space)
+    let bases: Vec<u32> = vec![0, 0x1F000, 0x10FFFD - (n - 1), 0x10FFFE - (n - 1)];
     let scratch = Scratch::new("ud");
     let nconf = confs.len();
     let jobs: Vec<(usize, u32)> = (0..confs.len()).flat_map(|i| bases.iter().map(move |b| (i, *b))).collect();
@@ -797,12 +800,12 @@ pub fn run(_env: &Env, run: &Run) -> (Stats, Coverage) {
     st.sample(json!({"Scripts.txt": "0370..0371 ; P / 0372 ; P / 0373 ; Q (Q lines first)", "expected": "T_P = 0370-0372, T_Q = 0373, T_Z empty"}));
     st.sample(json!({"built": "all tables in OUT_DIR of precis-core and precis-profiles build scripts", "expected": "each denotes exactly what the repo's resource files assign, for every code point, and is binary-searchable"}));
     let cov = Coverage {
-        rule: format!("(a) every table the real build scripts just emitted (read from cargo's out_dir) x every code point, against an independent reader of the same input files; (b) every tiling of a {}-slot code-point window into {{gap, single entry, First/Last range}} with {} attribute bundles (gc/ccc/bidi/decomposition), at three window positions (0, mid-plane, ending at U+10FFFD), through RustCodeGen+UcdFileGen+GeneralCategoryGen with UcdTableGen x4, UnassignedTableGen, ViramaTableGen, WidthMappingTableGen, BidiClassGen; (c) every assignment of {{none,P,Q}} to {} slots x every segmentation into single/range lines x both value-grouped orders through UnicodeGen<Script> and, in rotation, the four other property-file types; oracle per table: denotation (merged intervals and values) equals what the input assigns, entries strictly increasing and disjoint, declared length = emitted length, and a binary search with the library's own expression over real precis_core::Codepoints finds exactly the members (window +-2 and far probes); bidi uses the library's default-L lookup semantics; non-trivial = inputs with at least one range and two entries / two lines", n, nb, pn),
+        rule: format!("(a) every table the real build scripts just emitted (read from cargo's out_dir) x every code point, against an independent reader of the same input files; (b) every tiling of a {}-slot code-point window into {{gap, single entry, First/Last range}} with {} attribute bundles (gc/ccc/bidi/decomposition), at four window positions (0, mid-plane, ending at U+10FFFD, ending at U+10FFFE), through RustCodeGen+UcdFileGen+GeneralCategoryGen with UcdTableGen x4, UnassignedTableGen, ViramaTableGen, WidthMappingTableGen, BidiClassGen; (c) every assignment of {{none,P,Q}} to {} slots x every segmentation into single/range lines x both value-grouped orders through UnicodeGen<Script> and, in rotation, the four other property-file types; oracle per table: denotation (merged intervals and values) equals what the input assigns, entries strictly increasing and disjoint, declared length = emitted length, and a binary search with the library's own expression over real precis_core::Codepoints finds exactly the members (window +-2 and far probes); bidi uses the library's default-L lookup semantics; non-trivial = inputs with at least one range and two entries / two lines", n, nb, pn),
         alphabet: json!({"bundles": BUNDLES.iter().take(nb as usize).map(|b| format!("{};{};{};{}", b.0, b.1, b.2, b.3)).collect::<Vec<_>>(), "window_bases": bases.iter().map(|b| format!("{:04X}", b)).collect::<Vec<_>>()}),
-        bound_completed: format!("{} UnicodeData tilings x 3 positions; {} property-file configurations x 2 file types; built tables: all code points", nconf, npconf),
+        bound_completed: format!("{} UnicodeData tilings x 4 positions; {} property-file configurations x 2 file types; built tables: all code points", nconf, npconf),
         exhaustive: false,
         assumptions: vec![
-            "well-formed UnicodeData never lists U+10FFFE/U+10FFFF (noncharacters), so windows end at U+10FFFD".into(),
+            "windows never contain U+10FFFF itself: UnassignedTableGen computes `last + 1` as a Codepoint and reports an error for an entry at U+10FFFF, which no real UnicodeData can contain (noncharacter)".into(),
             "degenerate Range(s>e) entries denote nothing and are reported as a count, not as violations".into(),
         ],
         extra: json!({}),
